@@ -136,6 +136,7 @@ class Contract:
         self.opaque_calendar = kw.pop("opaque_calendar", False)
         self.relational = kw.pop("relational", [])     # [(label, shared-params, requires-src, ensures-src)]
         self.reveal = kw.pop("reveal", [])             # opaque ghost functions expanded in this contract
+        self.hide = kw.pop("hide", {})                 # {ghost name: result type}: opaque in this contract only
         self.no_merge = kw.pop("no_merge", [])         # line numbers / True: do not join these `if` branches
         if kw:
             raise TypeError(f"unknown contract keys {list(kw)}")
@@ -1252,7 +1253,7 @@ class Exec:
             elif cty == "double" and v.ty in (T.Int, T.Real, T.Bool):
                 v = T.mk_real(self.num(v))
             if dty is not None:
-                v2 = T.coerce(v, dty)
+                v2 = self.coerce_store(st, v, dty, f"local {n}")
                 v2.cint = v.cint
                 v = v2
             st.env[n] = v
